@@ -447,6 +447,33 @@ class Sym:
             return None
         return ("alias", pl[0], pl[1], tuple(pl[2]))
 
+    def mut_alias_destructure(self, stmt, st):
+        """`let Struct { a, b, .. } = &mut x;`: every binding is another name of the field place `x.a`, `x.b` (match ergonomics binds
+        them by `ref mut`). Returns {binding id: alias value} or None."""
+        pat = stmt["pat"]
+        if pat.get("k") != "Deref" or not (pat.get("ty") or "").startswith("&mut ") or not isinstance(pat.get("pat"), dict):
+            return None
+        leaf = pat["pat"]
+        if leaf.get("k") != "Leaf" or not leaf.get("fields"):
+            return None
+        if not all(f_["pat"].get("k") == "Bind" and f_["pat"].get("byref") and f_["pat"].get("sub") is None for f_ in leaf["fields"]):
+            return None
+        fake = {"pat": {"k": "Bind", "sub": None, "ty": pat["ty"], "id": -1}, "init": stmt["init"]}
+        n = stmt["init"]
+        while isinstance(n, dict) and n.get("k") in ("Borrow", "Deref", "Coerce"):
+            n = n["e"]
+        pl = self.place_of(n, st) if isinstance(n, dict) else None
+        if pl is None or pl[3] is not None or pl[0] not in st.env:
+            return None
+        cur = st.env[pl[0]]
+        if cur[0] == "alias":
+            base = ("alias", cur[1], cur[2], tuple(cur[3]) + tuple(pl[2]))
+        elif (n.get("ty") or "").startswith("&") or self.root_is_ref(pl[0], st):
+            return None
+        else:
+            base = ("alias", pl[0], pl[1], tuple(pl[2]))
+        return {f_["pat"]["id"]: ("alias", base[1], base[2], tuple(base[3]) + (f_["name"],)) for f_ in leaf["fields"]}
+
     def root_is_ref(self, vid, st):
         v = st.env.get(vid)
         return v is not None and v[0] in ("place", "pl")
@@ -1169,6 +1196,12 @@ class Sym:
                         s2.env[stmt["pat"]["id"]] = al
                         nxt.append(s2)
                         continue
+                    als = self.mut_alias_destructure(stmt, s)
+                    if als is not None:
+                        s2 = s.copy()
+                        s2.env.update(als)
+                        nxt.append(s2)
+                        continue
                     for s2, (k, v) in self.ev(stmt["init"], s):
                         if k != VAL:
                             out.append((s2, (k, v))); continue
@@ -1436,6 +1469,8 @@ class Sym:
                 # generic helper: remember what its type parameters stand for at this call site (type-qualified callee names
                 # inside it - Pod::slice_from_prefix<T>, parse::<F> - must name the concrete type)
                 gens, targs = b.get("generics") or [], [self.subst_ty(t_) for t_ in (f.get("targs") or [])]
+                if len(targs) == len(gens) + 1 and f.get("trait") and b.get("impl_trait"):
+                    targs = targs[1:]       # a trait method's own type arguments follow the Self type
                 self.tsubst.append({g: t_ for g, t_ in zip(gens, targs) if not g.startswith("'")} if len(gens) == len(targs) else {})
                 st0 = St(conds=st.conds, effects=st.effects, n=st.n)
                 threaded = {}
